@@ -444,7 +444,16 @@ class SymNum:
             if cur().decide(num < 0):
                 return _np.float64('-inf')
             return _np.float64('nan')
-        return self._mk(num / den, o, isint=False)
+        q = num / den
+        if not z3.is_rational_value(z3.simplify(den)) and not z3.is_rational_value(z3.simplify(num)):
+            # redundant linear lemmas about a symbolic/symbolic quotient (help the solver avoid non-linear reasoning)
+            c = cur()
+            pos = z3.And((q <= 1) == (num <= den), (q >= 1) == (num >= den), (q >= 0) == (num >= 0), (q <= 0) == (num <= 0),
+                         (q <= -1) == (num <= -den))
+            neg = z3.And((q <= 1) == (num >= den), (q >= 1) == (num <= den), (q >= 0) == (num <= 0), (q <= 0) == (num >= 0),
+                         (q <= -1) == (num >= -den))
+            c.add(z3.Implies(den > 0, pos), z3.Implies(den < 0, neg))
+        return self._mk(q, o, isint=False)
 
     def __truediv__(self, o):
         if _arr(o):
@@ -1138,7 +1147,11 @@ def _wrap(x):
         if x.ndim == 0:
             return x.item() if x.dtype == object else x[()]
         if x.dtype != object:
-            x = _objarr(x)
+            dt = x.dtype
+            x = _objarr(x).view(SymArray)
+            if x.size == 0:
+                x._edt = dt
+            return x
         return x.view(SymArray)
     return x
 
@@ -1169,6 +1182,30 @@ def demote(a):
     if is_sym(a):
         raise Unsupported("symbolic scalar at a concrete-only boundary")
     return a
+
+
+def _is_concrete(x):
+    if is_sym(x):
+        return False
+    if isinstance(x, SymArray):
+        for v in x.view(_np.ndarray).flat:
+            if is_sym(v) or isinstance(v, _np.ndarray):
+                return False
+        return True
+    if isinstance(x, (list, tuple)):
+        return all(_is_concrete(y) for y in x)
+    return True
+
+
+def _demote1(x):
+    if isinstance(x, SymArray):
+        p = x.view(_np.ndarray)
+        if p.size == 0:
+            return _np.zeros(p.shape, dtype=x._edt or float)
+        return _np.array(p.tolist()).reshape(p.shape)
+    if isinstance(x, (list, tuple)):
+        return type(x)(_demote1(y) for y in x)
+    return x
 
 
 def _conc_key(key):
@@ -1255,10 +1292,18 @@ def _dtype_kind(dtype):
 class SymArray(_np.ndarray):
     """Object-dtype ndarray holding symbolic and/or NumPy-scalar elements."""
 
+    _edt = None      # native dtype remembered for arrays created empty (an empty object array has lost it)
+
     def __array_finalize__(self, obj):
-        pass
+        if obj is not None and self.size == 0:
+            self._edt = getattr(obj, '_edt', None)
 
     def __array_ufunc__(self, ufunc, method, *inputs, out=None, **kw):
+        if out is None and all(_is_concrete(i) for i in inputs):
+            # concrete fast path: real NumPy on native dtypes, result promoted back into the closed world
+            with _np.errstate(all='ignore'):
+                r = getattr(ufunc, method)(*[_demote1(i) for i in inputs], **kw)
+            return _promote(r)
         f = _UF.get(ufunc.__name__)
         if f is None:
             raise Unsupported("ufunc %s" % ufunc.__name__)
@@ -2078,6 +2123,9 @@ class NPProxy:
             if not any(isinstance(x, SymArray) for x in a2) and not any(isinstance(v, SymArray) for v in k.values()):
                 # purely concrete call: run numpy, then bring the result into the closed world
                 return _promote(real(*a2, **k))
+            if all(_is_concrete(x) for x in a2) and all(_is_concrete(v) for v in k.values()):
+                with _np.errstate(all='ignore'):
+                    return _promote(real(*[_demote1(x) for x in a2], **{kk: _demote1(v) for kk, v in k.items()}))
             h = _AF.get(real)
             if h is not None:
                 return _promote(h(*a2, **k))
